@@ -159,7 +159,14 @@ func c02Termination(p *Prog, r *Report, fns []*ssa.Function) {
 	}
 	r.Instances("D4-recursion", "recursive groups reachable from extractors", len(groups), 3)
 
-	// visited sets
+	nv := checkVisitedSets(p, r, "D4-visited-set", fns)
+	r.Instances("D4-visited-set", "visited/seen sets consulted inside loops", nv, 3)
+}
+
+// checkVisitedSets: for every map made in the function, holding bool/struct{} values, that is
+// consulted inside a loop to decide a branch and updated inside the same loop, some update uses the
+// very key that was looked up. Returns the number of such sets.
+func checkVisitedSets(p *Prog, r *Report, rule string, fns []*ssa.Function) int {
 	nv := 0
 	for _, fn := range fns {
 		for _, b := range fn.Blocks {
@@ -223,10 +230,10 @@ func c02Termination(p *Prog, r *Report, fns []*ssa.Function) {
 				}
 			}
 			site := fmt.Sprintf("%s:set[%s]", fnKey(fn), short(renderValueDeep(lk.Index), 80))
-			r.Check(okK, "D4-visited-set", site, p.Pos(lk.Pos()), "the key tested is the key recorded", "a set that decides whether the loop processes an item is never updated with the key it is asked about (it records something else): items are processed again and again — for work lists fed from file content (include chains, parent links) a cycle makes the extractor loop forever")
+			r.Check(okK, rule, site, p.Pos(lk.Pos()), "the key tested is the key recorded", "a set that decides whether the loop processes an item is never updated with the key it is asked about (it records something else): items are processed again and again — for work lists fed from file content (include chains, parent links) a cycle makes the extractor loop forever")
 		}
 	}
-	r.Instances("D4-visited-set", "visited/seen sets consulted inside loops", nv, 3)
+	return nv
 }
 
 func renderValueDeep(v ssa.Value) string {
@@ -407,7 +414,6 @@ func strictlyInside(v ssa.Value, fn *ssa.Function) bool {
 	return rec(v, 0, 0)
 }
 
-
 // isParamValue: v is the parameter or a load of the local it was spilled to (and never reassigned).
 func isParamValue(v ssa.Value, prm *ssa.Parameter) bool {
 	if v == ssa.Value(prm) {
@@ -458,7 +464,6 @@ func freeVarBindsParam(h *ssa.Function, fv *ssa.FreeVar, prm *ssa.Parameter) boo
 	}
 	return res
 }
-
 
 // budgetWitness: some 64-bit integer parameter b of a group function is compared with a limit
 // (b' > limit with b' derived from b), every recursive call passes the current value of b's cell,
